@@ -10,6 +10,7 @@ import IpcModel.Ledger.L
 import IpcModel.Timed
 import IpcModel.Async
 import IpcModel.Shm
+import IpcModel.Bounds
 /-! Line-protocol driver: one request per line on stdin, one canonical answer per line on stdout.
 Imports model files only (no Mathlib/Std), so it links as a native executable. -/
 open Frag
@@ -541,6 +542,18 @@ def cmdShm (toks : List String) : String :=
       s!"{i}={h.length}:{if h.ptr.isSome then "map" else "null"}:{if ok then "ok" else "bad"}"
     " ".intercalate (w.k.calls.map shmCallText) ++ " ; " ++ " ".intercalate hs
 
+/-! ### ghost buffer of recv (C18) -/
+def cmdBounds (toks : List String) : String :=
+  match kvNat toks "sys", kvNat toks "n", kvNat toks "total" with
+  | some sys, some n, some total =>
+    let pkts := natList ((kv toks "pkts").getD "")
+    match Bounds.recv sys n total pkts true with
+    | .ok b => s!"ok cap={b.cap} len={b.len} written={b.written}"
+    | .closed => "closed"
+    | .block => "block"
+    | .viol v => s!"violation:{repr v}"
+  | _, _, _ => "bad-request"
+
 /-- all fault patterns (ENOBUFS or not) of length k, as numbers 0 .. 2^k-1 -/
 def patOf (k m : Nat) : List Fault := (List.range k).map fun i => if (m >>> i) % 2 = 1 then .enobufs else .none
 
@@ -577,6 +590,7 @@ def answer (line : String) : String :=
   | "timed" :: rest => cmdTimed rest
   | "stream" :: rest => cmdStream rest
   | "shm" :: rest => cmdShm rest
+  | "bounds" :: rest => cmdBounds rest
   | "noop" :: _ => "ok"
   | "enc" :: rest => cmdEnc rest
   | "rt" :: rest => cmdRt rest
